@@ -247,3 +247,299 @@ func init() {
 	register("C06", ruleC05Window)                                // LIMIT 0 on a union / DISTINCT: the -1 defaults dropped and `limit > 0` for "a limit was given"
 	register("C15", ruleC04Strategy)                              // a requested HASH_JOIN on `o.minimum < f.price`: `<` decided by the equality of the key texts
 }
+
+// ---------------------------------------------------------------------------------------------------------------------
+// c07.cte-name-as-written — the registry of common table expressions is read by the selector reader, whose keys are exact.
+// The builder therefore registers, marks and restores each CTE under its name as written; a case-folded name on one of
+// these writes (and a second, folded look-up in the FROM builder) makes `FROM OpenOrders.lines`, `mix=>OpenOrders` and the
+// cycle marker of `WITH Tmp AS (SELECT * FROM Tmp)` miss the entry (rounds 11: C07 and C10, two independent agents).
+func init() {
+	register("C07", ruleC07CteNameAsWritten)
+	register("C10", ruleC07CteNameAsWritten)
+}
+
+var caseFolders = map[string]bool{"ToLower": true, "ToUpper": true, "ToTitle": true, "Title": true, "EqualFold": true, "ToLowerSpecial": true, "ToUpperSpecial": true, "Lowered": true}
+
+func ruleC07CteNameAsWritten(c *Ctx) {
+	c.Doc("c07.cte-name-as-written", "BuildCte (with its function literals and the helpers it calls) does not fold the case of anything: the name a CTE is registered, marked as running and restored under is the identifier as written, which is what the exact-match selector reader looks for")
+	f := c.P.Func(modPath, "BuildCte")
+	if f == nil {
+		c.Unknown("c07.cte-name-as-written", "BuildCte", "-", "anchor lost")
+		return
+	}
+	c.Fn("BuildCte")
+	var why []string
+	writes := 0
+	for _, g := range withClosures(f) {
+		deepInstrs(g, func(h *ssa.Function, _ *TB, _ *ssa.BasicBlock, in ssa.Instruction) {
+			if _, isMU := in.(*ssa.MapUpdate); isMU {
+				writes++
+			}
+			ci, ok := in.(ssa.CallInstruction)
+			if !ok {
+				return
+			}
+			name := ""
+			if ci.Common().IsInvoke() {
+				name = ci.Common().Method.Name()
+			} else if sc := ci.Common().StaticCallee(); sc != nil {
+				name = sc.Name()
+				if sc.Pkg != nil && strings.HasPrefix(sc.Pkg.Pkg.Path(), modPath) {
+					return // a module function: looked through (unknown helper) or judged by its own rules
+				}
+			}
+			if caseFolders[name] {
+				why = append(why, "the CTE builder folds the case of a name at "+c.P.Pos(in.Pos())+" ("+name+"): the registry is read with exact keys, an entry registered under another spelling than the one written is missed by `cte.column`, `mix=>cte` and the cycle marker")
+			}
+		})
+	}
+	if writes == 0 {
+		c.Unknown("c07.cte-name-as-written", "BuildCte", c.P.Pos(f.Pos()), "inventory: no write to the registry found")
+		return
+	}
+	c.Check(len(why) == 0, "c07.cte-name-as-written", "BuildCte", c.P.Pos(f.Pos()), fmt.Sprintf("%d registry writes, no case folding in the builder", writes), strings.Join(uniq(why), "; "))
+}
+
+// ---------------------------------------------------------------------------------------------------------------------
+// c12.async-slot-chain — the post-processor of an ASYNC select item follows the chain of result slots (a slot may hold
+// another slot) down to the delivered value and stores that value into the row. Round 11: (C10) the chain test looked at
+// the head of the chain every round, so a slot holding a slot never ends — Exec hangs; (C12) the store moved into one exit
+// of the loop, so a failed or NULL call leaves the unresolved slot in the row.
+func init() {
+	register("C12", ruleC12AsyncSlotChain)
+	register("C10", ruleC12AsyncSlotChain)
+	register("C14", ruleC12AsyncSlotChain)
+}
+
+func dependsOnPhiOf(v ssa.Value, hdr *ssa.BasicBlock, depth int) bool {
+	if depth > 8 || v == nil {
+		return false
+	}
+	switch x := v.(type) {
+	case *ssa.Phi:
+		if x.Block() == hdr {
+			return true
+		}
+		for _, e := range x.Edges {
+			if dependsOnPhiOf(e, hdr, depth+1) {
+				return true
+			}
+		}
+	case *ssa.UnOp:
+		return dependsOnPhiOf(x.X, hdr, depth+1)
+	case *ssa.TypeAssert:
+		return dependsOnPhiOf(x.X, hdr, depth+1)
+	case *ssa.Extract:
+		return dependsOnPhiOf(x.Tuple, hdr, depth+1)
+	case *ssa.MakeInterface:
+		return dependsOnPhiOf(x.X, hdr, depth+1)
+	case *ssa.ChangeInterface:
+		return dependsOnPhiOf(x.X, hdr, depth+1)
+	}
+	return false
+}
+
+func ruleC12AsyncSlotChain(c *Ctx) {
+	c.Doc("c12.async-slot-chain", "SelectExpr, the function literal that resolves the slot of an ASYNC item: the loop that follows the chain of slots tests the value it carries from round to round (not a value that no round changes: the loop would never end for a slot that holds a slot), and the store of the carried value into the row lies on every way from the loop to the literal's return — whichever exit the loop takes, no slot stays in the row")
+	f := c.P.Func(modPath, "SelectExpr")
+	if f == nil {
+		c.Unknown("c12.async-slot-chain", "SelectExpr", "-", "anchor lost")
+		return
+	}
+	c.Fn("SelectExpr")
+	found := 0
+	var why []string
+	for _, g := range withClosures(f) {
+		hs := loopHeaders(g)
+		allInstrs(g, func(b *ssa.BasicBlock, in ssa.Instruction) {
+			ta, ok := in.(*ssa.TypeAssert)
+			if !ok || !ta.CommaOk {
+				return
+			}
+			pt, isP := ta.AssertedType.Underlying().(*types.Pointer)
+			if !isP {
+				return
+			}
+			if _, isI := pt.Elem().Underlying().(*types.Interface); !isI {
+				return
+			}
+			var hdr *ssa.BasicBlock
+			for _, h := range hs {
+				if h == b || inNaturalLoop(h, b) {
+					hdr = h
+				}
+			}
+			if hdr == nil {
+				return
+			}
+			// a chain loop: what the asserted pointer points to is carried into the next round
+			var derived func(v ssa.Value, depth int) bool
+			derived = func(v ssa.Value, depth int) bool {
+				if depth > 6 || v == nil {
+					return false
+				}
+				switch x := v.(type) {
+				case *ssa.TypeAssert:
+					return x == ta
+				case *ssa.Extract:
+					return derived(x.Tuple, depth+1)
+				case *ssa.UnOp:
+					return derived(x.X, depth+1)
+				case *ssa.MakeInterface:
+					return derived(x.X, depth+1)
+				}
+				return false
+			}
+			chain := false
+			for _, hin := range hdr.Instrs {
+				if ph, isPhi := hin.(*ssa.Phi); isPhi {
+					for _, e := range ph.Edges {
+						if derived(e, 0) {
+							chain = true
+						}
+					}
+				}
+			}
+			if !chain {
+				return
+			}
+			found++
+			// (1) the tested value advances
+			if !dependsOnPhiOf(ta.X, hdr, 0) {
+				// a chain followed through a cell that the loop itself overwrites is the same walk
+				writes := false
+				if ld, isLd := ta.X.(*ssa.UnOp); isLd && ld.Op == token.MUL {
+					allInstrs(g, func(sb *ssa.BasicBlock, sin ssa.Instruction) {
+						if st, isSt := sin.(*ssa.Store); isSt && st.Addr == ld.X && (sb == hdr || inNaturalLoop(hdr, sb)) {
+							writes = true
+						}
+					})
+				}
+				if !writes {
+					why = append(why, "the chain test at "+c.P.Pos(ta.Pos())+" looks at a value no round of the loop changes: a slot that holds another slot is followed for ever (Exec never returns)")
+				}
+			}
+			// (2) the carried value is stored on every way out
+			var stores []*ssa.BasicBlock
+			allInstrs(g, func(sb *ssa.BasicBlock, sin ssa.Instruction) {
+				if mu, isMU := sin.(*ssa.MapUpdate); isMU && dependsOnPhiOf(mu.Value, hdr, 0) {
+					stores = append(stores, sb)
+				}
+			})
+			if len(stores) == 0 {
+				why = append(why, "the value the chain ends in is not stored into the row (loop at "+c.P.Pos(ta.Pos())+")")
+				return
+			}
+			// blocks reachable from the loop header
+			seen := map[*ssa.BasicBlock]bool{}
+			work := []*ssa.BasicBlock{hdr}
+			for len(work) > 0 {
+				x := work[len(work)-1]
+				work = work[:len(work)-1]
+				if seen[x] {
+					continue
+				}
+				seen[x] = true
+				work = append(work, x.Succs...)
+			}
+			for rb := range seen {
+				if len(rb.Instrs) == 0 {
+					continue
+				}
+				if _, isRet := rb.Instrs[len(rb.Instrs)-1].(*ssa.Return); !isRet {
+					continue
+				}
+				dom := false
+				for _, sb := range stores {
+					if sb.Dominates(rb) {
+						dom = true
+					}
+				}
+				if !dom {
+					why = append(why, "a way from the slot-chain loop to the return at "+c.P.Pos(rb.Instrs[len(rb.Instrs)-1].Pos())+" does not pass the store of the delivered value: after that exit the row keeps the unresolved slot (a failed or NULL call)")
+				}
+			}
+		})
+	}
+	if found == 0 {
+		c.Unknown("c12.async-slot-chain", "SelectExpr", c.P.Pos(f.Pos()), "anchor lost: no loop that follows a chain of result slots")
+		return
+	}
+	c.Check(len(why) == 0, "c12.async-slot-chain", "SelectExpr", c.P.Pos(f.Pos()), fmt.Sprintf("%d slot-chain loop(s): the carried value is tested and is stored on every way out", found), strings.Join(uniq(why), "; "))
+}
+
+// ---------------------------------------------------------------------------------------------------------------------
+// c04.side-by-first-part — a condition over two functions (§10, round 8). extractColumnsFromExpr answers, for an ON column,
+// (is it this side's, the part it was decided on, the column's path): the decision and the part agree — both are the
+// outermost part of the name, so `a.k.id` belongs to the side `a`. The callers use the boolean. Round 11: the part became
+// the qualifier's table name (`k`) — harmless, nobody read it — and the callers began to compare the part with the
+// identifier themselves — harmless, the two were the same string. Together a three-part column belongs to neither side.
+func init() { register("C04", ruleC04SideByFirstPart) }
+
+func ruleC04SideByFirstPart(c *Ctx) {
+	c.Doc("c04.side-by-first-part", "join-column extraction, two functions: either the callers of extractColumnsFromExpr decide a column's side by its boolean result, or the part it returns next to the boolean is the very value the boolean compares the identifier with (the outermost part of the name). Violated only when the callers read the returned part AND that part is no longer what the boolean was decided on; each half alone is silent")
+	prod := c.P.Func(modPath, "extractColumnsFromExpr")
+	cons := c.P.Func(modPath, "extractJoinColumns")
+	if prod == nil || cons == nil {
+		c.Unknown("c04.side-by-first-part", "extractColumnsFromExpr/extractJoinColumns", "-", "anchor lost")
+		return
+	}
+	c.Fn("extractColumnsFromExpr")
+	c.Fn("extractJoinColumns")
+	// producer: on every return whose first result compares the identifier with X, the second result is X
+	tb := NewTB()
+	decided, lost := 0, ""
+	allInstrs(prod, func(_ *ssa.BasicBlock, in ssa.Instruction) {
+		ret, ok := in.(*ssa.Return)
+		if !ok || len(ret.Results) < 2 {
+			return
+		}
+		r0 := tb.Of(ret.Results[0])
+		if r0.Op != "bin" || r0.Name != "==" {
+			return
+		}
+		var x *Term
+		switch {
+		case r0.Args[0].Op == "param":
+			x = r0.Args[1]
+		case r0.Args[1].Op == "param":
+			x = r0.Args[0]
+		default:
+			return
+		}
+		decided++
+		if r1 := tb.Of(ret.Results[1]); r1.String() != x.String() {
+			lost = "the part returned at " + c.P.Pos(ret.Pos()) + " (" + r1.String() + ") is not the value the side was decided on (" + x.String() + ")"
+		}
+	})
+	if decided == 0 {
+		c.Unknown("c04.side-by-first-part", "extractColumnsFromExpr", c.P.Pos(prod.Pos()), "anchor lost: no return that decides the side by comparing the identifier")
+		return
+	}
+	// consumer: does it read the second result?
+	reads := ""
+	for _, g := range c.P.ModFuncs {
+		if len(g.Blocks) == 0 || !strings.HasPrefix(funcPkgPath(g), modPath) {
+			continue
+		}
+		allInstrs(g, func(_ *ssa.BasicBlock, in ssa.Instruction) {
+			ex, ok := in.(*ssa.Extract)
+			if !ok || ex.Index != 1 {
+				return
+			}
+			call, isCall := ex.Tuple.(*ssa.Call)
+			if !isCall || call.Common().StaticCallee() != prod {
+				return
+			}
+			if refs := ex.Referrers(); refs != nil {
+				for _, r := range *refs {
+					if _, dbg := r.(*ssa.DebugRef); !dbg {
+						reads = c.P.funcKey(g) + " reads the returned part at " + c.P.Pos(r.Pos())
+					}
+				}
+			}
+		})
+	}
+	bad := lost != "" && reads != ""
+	c.Check(!bad, "c04.side-by-first-part", "extractColumnsFromExpr+extractJoinColumns", c.P.Pos(prod.Pos()), fmt.Sprintf("%d deciding return(s); part returned = part decided on: %v; callers read the part: %v", decided, lost == "", reads != ""), reads+"; "+lost+": a column `a.k.id` is decided by `k`, belongs to neither side, and both catalogs are keyed by the same column")
+}
